@@ -330,10 +330,25 @@ void ObjectFile::refresh(bool isFirstTime /* = false */)
 
 	DEBUG_MSG("Object %s has changed", path.c_str());
 
-	// Discard the existing set of attributes
-	discardAttributes();
-
 	MutexLocker lock(objectMutex);
+
+	// Another thread may have started a transaction on this object since the
+	// check at the top; its pending changes must not be thrown away
+	if (inTransaction)
+	{
+		DEBUG_MSG("The object is in a transaction");
+
+		objectFile.unlock();
+
+		return;
+	}
+
+	// Discard the existing set of attributes
+	for (std::map<CK_ATTRIBUTE_TYPE, OSAttribute*>::iterator i = attributes.begin(); i != attributes.end(); i++)
+	{
+		delete i->second;
+	}
+	attributes.clear();
 
 	// Read back the generation number
 	unsigned long curGen;
